@@ -75,14 +75,14 @@ def make_primitive(F):
             a = _peel(args[0])
             path = env.path(a) if is_node(a) else None
             ln = args[1]
-            info["len"] = ln.get("val") if is_node(ln) and ln.get("val") is not None else _shape_with_env(ln, env)
+            info["len"] = ln.get("val") if is_node(ln) and ln.get("val") is not None else _shape_with_env(ln, env, n)
             if path is None and is_node(a):
                 info["expr"] = _value_shape(a)
         elif kind in ("line", "str", "half", "udec3"):
             a = _peel(args[0]) if args else None
             path = env.path(a) if is_node(a) else None
             if kind == "line" and len(args) > 1:
-                info["len"] = args[1].get("val") if args[1].get("val") is not None else _shape_with_env(args[1], env)
+                info["len"] = args[1].get("val") if args[1].get("val") is not None else _shape_with_env(args[1], env, n)
         return [Event(path, kind, info)]
 
     return prim
@@ -93,7 +93,30 @@ def _value_shape(e):
     return show(e)
 
 
-def _shape_with_env(e, env):
+def _local_name(root, env, at=None):
+    """wire-visible name of a local in a length expression: a local that was itself transferred through the stream is named
+    by how many stream operations ago (in the same function, source order) it was last transferred ($-1 = by the operation
+    just before this one), so renaming it, or moving the code into a helper, changes nothing; any other local keeps its name"""
+    idx = getattr(env, "_stream_calls", None)
+    if idx is None:
+        idx, xfers = {}, {}
+        for n in walk(env.fn.get("body") or {}):
+            if n["k"] in ("Call", "OpCall") and n.get("cls") in STREAMS:
+                idx[id(n)] = len(idx)
+                for a in n.get("args", []):
+                    a = _peel(a)
+                    if is_node(a) and a["k"] == "Ref" and a.get("rk") == "local":
+                        xfers.setdefault(a["id"], []).append(idx[id(n)])
+        env._stream_calls, env._stream_xfers = idx, xfers
+    cur = idx.get(id(at)) if at is not None else None
+    if cur is not None:
+        prev = [i for i in env._stream_xfers.get(root[1], ()) if i < cur]
+        if prev:
+            return "$-%d" % (cur - max(prev))
+    return "$" + root[2]
+
+
+def _shape_with_env(e, env, at=None):
     """render a length expression with proxies/aliases resolved to member paths"""
     if not is_node(e):
         return str(e)
@@ -104,19 +127,19 @@ def _shape_with_env(e, env):
         p = env.path(e)
         if p is not None:
             if p[0][0] == "$v":
-                return "$" + p[0][2] + "".join("." + c if not c.startswith("[") else c for c in p[1:])
+                return _local_name(p[0], env, at) + "".join("." + c if not c.startswith("[") else c for c in p[1:])
             return render(p)
         return show(e)
     if k == "Binary":
-        return "(%s %s %s)" % (_shape_with_env(e["l"], env), e["op"], _shape_with_env(e["r"], env))
+        return "(%s %s %s)" % (_shape_with_env(e["l"], env, at), e["op"], _shape_with_env(e["r"], env, at))
     if k == "Cast":
-        return _shape_with_env(e["e"], env)
+        return _shape_with_env(e["e"], env, at)
     if k == "Sizeof":
         return str(e.get("val"))
     if k == "Call":
         r = e.get("recv")
-        return "%s.%s(%s)" % (_shape_with_env(r, env) if is_node(r) else "", e.get("short"),
-                              ",".join(_shape_with_env(a, env) for a in e.get("args", [])))
+        return "%s.%s(%s)" % (_shape_with_env(r, env, at) if is_node(r) else "", e.get("short"),
+                              ",".join(_shape_with_env(a, env, at) for a in e.get("args", [])))
     return show(e)
 
 
@@ -174,7 +197,25 @@ class RegionView:
         oldv = versions.VERSION_LOCALS
         versions.VERSION_LOCALS = self.b.vlocals
         try:
-            if isinstance(node, tuple):
+            if is_node(node) and node["k"] == "VerOr":
+                # disjunction of conjunctions of version guards, synthesised at a control-flow join
+                any_unknown, val = False, False
+                for conj in node["conjs"]:
+                    cv = True
+                    for k2, pol2 in conj:
+                        g = self.guard_value(k2)
+                        if g is None:
+                            cv = None if cv is not False else False
+                        elif g != pol2:
+                            cv = False
+                    if cv is True:
+                        val = True
+                        break
+                    if cv is None:
+                        any_unknown = True
+                if val is not True:
+                    val = None if any_unknown else False
+            elif isinstance(node, tuple):
                 v = self.VE.ev(node[1], self.region)
                 if v is not None:
                     val = (bool(v) == node[2])
@@ -198,6 +239,12 @@ class RegionView:
                 local = g[2] if len(g) > 2 else False
                 v = self.guard_value(key)
                 if v is None:
+                    node = self.b.registry.get(key)
+                    if is_node(node) and ((node["k"] == "Binary" and node["op"] in ("&&", "||")) or node["k"] == "VerOr"):
+                        # a compound condition that the version alone does not decide: its parts are recorded as their own
+                        # gates where they hold on every path; the compound itself is not a gate (a nested-if spelling of the
+                        # same test leaves none either)
+                        continue
                     if not (drop_local_gates and local):
                         gates.append((key, pol))
                 elif v != pol:
@@ -219,7 +266,7 @@ def entry(ev, gates):
         if len(p) > 1:
             ps += "".join("." + c if not c.startswith("[") else c for c in p[1:])
     elif p[0][0] == "$lost":
-        ps = "<lost:%s>" % p[0][1]
+        ps = "$local"  # a local of a callee (hand-written reader/writer buffers): not a wire-visible name either
     else:
         ps = render(p)
     w = ev.info.get("width")
